@@ -236,41 +236,100 @@ theorem getVal_inSets {w : World} {S C : Nat → Prop} {o : Nat} {p : String} {v
           | int n => simp [hd, DVal.toVal] at h; subst h; trivial
           | list l => simp [hd, DVal.toVal] at h
 
-theorem installDep_good {w w' : World} {S C : Nat → Prop} {o : Nat} {md : MethodDef} {dynw : List Watcher}
-    (hc : Closed w S C) (ho : S o) (h : w.installDep o md = (w', dynw)) :
-    Good w w' S C ∧ ∀ wt ∈ dynw, wt.inSet S := by
-  unfold World.installDep at h
-  split at h
-  · rename_i p _
-    simp only [mkCaller] at h
-    simp at h
-    obtain ⟨rfl, rfl⟩ := h
-    have g1 := touchParam_good (p := p) hc ho
-    have g2 := nextPid_good g1.closed ((w.touchParam o p).nextPid + 1)
-    have g3 := addWatcher_good (wt := { inst := o, fn := { kind := .mcaller, owner := o, method := md.name, changed := Option.none, pid := (w.touchParam o p).nextPid }, names := [p], precedence := -1 }) g2.closed ⟨ho, ho⟩
-    exact ⟨(g1.trans g2).trans g3, by simp⟩
-  · rename_i a x _
+theorem mem_dedupN {x : Nat} : ∀ {l : List Nat}, x ∈ dedupN l → x ∈ l
+  | [], h => by simp [dedupN] at h
+  | y :: r, h => by
+    simp only [dedupN, List.mem_cons, List.mem_filter] at h ⊢
+    rcases h with h | ⟨h, _⟩
+    · exact Or.inl h
+    · exact Or.inr (mem_dedupN h)
+
+theorem dynContribs_inSet {w : World} {S C : Nat → Prop} {o : Nat} (hc : Closed w S C) (ho : S o) :
+    ∀ (deps : List Dep), ∀ c ∈ w.dynContribs o deps, S c.inst
+  | [], c, h => by simp [World.dynContribs] at h
+  | .own _ :: rest, c, h => by
+    simp only [World.dynContribs] at h
+    exact dynContribs_inSet hc ho rest c h
+  | .sub a x :: rest, c, h => by
+    simp only [World.dynContribs] at h
     split at h
     · rename_i s hs
       have hss : S s := getVal_inSets hc ho hs
-      simp only [mkCaller] at h
-      simp at h
-      obtain ⟨rfl, rfl⟩ := h
-      have g1 := touchParam_good (p := a) hc ho
-      have g2 := touchParam_good (p := x) g1.closed hss
-      have g3 := nextPid_good g2.closed (((w.touchParam o a).touchParam s x).nextPid + 1)
-      have g4 := addWatcher_good (wt := { inst := o, fn := { kind := .mcaller, owner := o, method := md.name, changed := some [x], pid := ((w.touchParam o a).touchParam s x).nextPid }, names := [a], precedence := -1 }) g3.closed ⟨ho, ho⟩
-      refine ⟨?_, ?_⟩
-      · refine (((g1.trans g2).trans g3).trans g4).trans ?_
-        have g5 := nextPid_good g4.closed ((World.addWatcher { ((w.touchParam o a).touchParam s x) with nextPid := ((w.touchParam o a).touchParam s x).nextPid + 1 } { inst := o, fn := { kind := .mcaller, owner := o, method := md.name, changed := some [x], pid := ((w.touchParam o a).touchParam s x).nextPid }, names := [a], precedence := -1 }).nextPid + 1)
-        exact g5.trans (addWatcher_good g5.closed ⟨hss, ho⟩)
-      · intro wt hwt
-        simp only [List.mem_cons, List.not_mem_nil, or_false] at hwt
-        rcases hwt with rfl | rfl
-        · exact ⟨ho, ho⟩
-        · exact ⟨hss, ho⟩
-    · simp at h; obtain ⟨rfl, rfl⟩ := h
-      exact ⟨Good.refl hc, by simp⟩
+      simp only [List.mem_cons] at h
+      rcases h with rfl | rfl | h
+      · exact ho
+      · exact hss
+      · exact dynContribs_inSet hc ho rest c h
+    · exact dynContribs_inSet hc ho rest c h
+
+theorem touchAll_good {S C : Nat → Prop} : ∀ (l : List (Nat × String)) (w : World), Closed w S C →
+    (∀ e ∈ l, S e.1) → Good w (w.touchAll l) S C
+  | [], w, hc, _ => by simp only [World.touchAll]; exact Good.refl hc
+  | (o, p) :: rest, w, hc, h => by
+    simp only [World.touchAll]
+    have g1 := touchParam_good (p := p) hc (h (o, p) (by simp))
+    exact g1.trans (touchAll_good rest _ g1.closed (fun e he => h e (by simp [he])))
+
+theorem installGroups_good {S C : Nat → Prop} {o : Nat} {m : String} {cs : List Contribution} (ho : S o) :
+    ∀ (gs : List Nat) (w w' : World) (ws : List Watcher), Closed w S C → (∀ g ∈ gs, S g) →
+    World.installGroups w o m cs gs = (w', ws) → Good w w' S C ∧ ∀ wt ∈ ws, wt.inSet S
+  | [], w, w', ws, hc, _, h => by
+    simp [World.installGroups] at h; obtain ⟨rfl, rfl⟩ := h
+    exact ⟨Good.refl hc, by simp⟩
+  | g :: gs, w, w', ws, hc, hg, h => by
+    simp only [World.installGroups, mkCaller] at h
+    generalize hr : World.installGroups _ o m cs gs = r at h
+    obtain ⟨w2, rest⟩ := r
+    simp at h; obtain ⟨rfl, rfl⟩ := h
+    have hgs : S g := hg g (by simp)
+    have g1 := nextPid_good hc (w.nextPid + 1)
+    have g2 : Good _ (World.addWatcher { w with nextPid := w.nextPid + 1 }
+        ⟨g, ⟨.mcaller, o, m, some (groupChanged cs g), w.nextPid⟩, groupNames cs g, -1⟩) S C :=
+      addWatcher_good g1.closed ⟨hgs, ho⟩
+    obtain ⟨g3, hws⟩ := installGroups_good ho gs _ _ _ g2.closed (fun x hx => hg x (by simp [hx])) hr
+    refine ⟨(g1.trans g2).trans g3, ?_⟩
+    intro wt hwt
+    simp only [List.mem_cons] at hwt
+    rcases hwt with rfl | hwt
+    · exact ⟨hgs, ho⟩
+    · exact hws wt hwt
+
+theorem installDyn_good {w w' : World} {S C : Nat → Prop} {o : Nat} {md : MethodDef} {dynw : List Watcher}
+    (hc : Closed w S C) (ho : S o) (h : w.installDyn o md = (w', dynw)) :
+    Good w w' S C ∧ ∀ wt ∈ dynw, wt.inSet S := by
+  unfold World.installDyn at h
+  have hcs := dynContribs_inSet hc ho md.deps
+  have g1 := touchAll_good (S := S) (C := C) ((w.dynContribs o md.deps).map fun c => (c.inst, c.name)) w hc (by
+    intro e he
+    simp only [List.mem_map] at he
+    obtain ⟨c, hcm, rfl⟩ := he
+    exact hcs c hcm)
+  obtain ⟨g2, hws⟩ := installGroups_good ho _ _ _ _ g1.closed (by
+    intro g hg
+    have := mem_dedupN hg
+    simp only [List.mem_map] at this
+    obtain ⟨c, hcm, rfl⟩ := this
+    exact hcs c hcm) h
+  exact ⟨g1.trans g2, hws⟩
+
+theorem installConst_good {w : World} {S C : Nat → Prop} {o : Nat} {md : MethodDef}
+    (hc : Closed w S C) (ho : S o) : Good w (w.installConst o md) S C := by
+  unfold World.installConst
+  generalize dedupS (ownDeps md.deps) = ps
+  simp only [mkCaller]
+  split
+  · exact Good.refl hc
+  · have g1 := touchAll_good (S := S) (C := C) (ps.map fun p => (o, p)) w hc (by
+      intro e he
+      simp only [List.mem_map] at he
+      obtain ⟨p, _, rfl⟩ := he
+      exact ho)
+    have g2 := nextPid_good g1.closed ((w.touchAll (ps.map fun p => (o, p))).nextPid + 1)
+    have g3 : Good _ (World.addWatcher { (w.touchAll (ps.map fun p => (o, p))) with
+          nextPid := (w.touchAll (ps.map fun p => (o, p))).nextPid + 1 }
+        ⟨o, ⟨.mcaller, o, md.name, Option.none, (w.touchAll (ps.map fun p => (o, p))).nextPid⟩, ps, -1⟩) S C :=
+      addWatcher_good g2.closed ⟨ho, ho⟩
+    exact (g1.trans g2).trans g3
 
 theorem setDyn_good {w : World} {S C : Nat → Prop} {o : Nat} {m : String} {dynw : List Watcher}
     (hc : Closed w S C) (ho : S o) (hd : ∀ wt ∈ dynw, wt.inSet S) :
@@ -297,35 +356,32 @@ theorem updateDeps_good {S C : Nat → Prop} {o : Nat} {attr : String} (ho : S o
   | md :: rest, w, hc => by
     simp only [World.updateDeps]
     split
-    · rename_i a x hdep
+    · -- the dynamic watchers recorded for this method
+      have hold : ∀ wt ∈ ((w.objs[o]?).bind (fun ob => lookup ob.dyn md.name)).getD [], S wt.inst := by
+        intro wt hwt
+        cases hob : w.objs[o]? with
+        | none => simp [hob] at hwt
+        | some ob =>
+          cases hl : lookup ob.dyn md.name with
+          | none => simp [hob, hl] at hwt
+          | some l =>
+            simp [hob, hl] at hwt
+            exact ((hc o ob ho hob).dyn _ (lookup_mem hl) wt hwt).1
+      have g1 : Good w (w.setObj o fun ob => { ob with dyn := erase ob.dyn md.name }) S C :=
+        setObj_good hc ho (fun ob _ h => ⟨h.values, h.attrs, h.watchers,
+          fun kv hkv x hx => h.dyn kv (mem_erase hkv) x hx⟩)
+      have g2 := unwatchAll_good (((w.objs[o]?).bind (fun ob => lookup ob.dyn md.name)).getD []) _ g1.closed hold
+      generalize hi : World.installDyn (List.foldl (fun w wt => w.unwatch wt)
+        (w.setObj o fun ob => { ob with dyn := erase ob.dyn md.name })
+        (((w.objs[o]?).bind (fun ob => lookup ob.dyn md.name)).getD [])) o md = r
+      obtain ⟨w3, dynw⟩ := r
+      obtain ⟨g3, hd⟩ := installDyn_good g2.closed ho hi
+      simp only
+      have g123 := (g1.trans g2).trans g3
       split
-      · -- the dynamic watchers recorded for this method
-        have hold : ∀ wt ∈ ((w.objs[o]?).bind (fun ob => lookup ob.dyn md.name)).getD [], S wt.inst := by
-          intro wt hwt
-          cases hob : w.objs[o]? with
-          | none => simp [hob] at hwt
-          | some ob =>
-            cases hl : lookup ob.dyn md.name with
-            | none => simp [hob, hl] at hwt
-            | some l =>
-              simp [hob, hl] at hwt
-              exact ((hc o ob ho hob).dyn _ (lookup_mem hl) wt hwt).1
-        have g1 : Good w (w.setObj o fun ob => { ob with dyn := erase ob.dyn md.name }) S C :=
-          setObj_good hc ho (fun ob _ h => ⟨h.values, h.attrs, h.watchers,
-            fun kv hkv x hx => h.dyn kv (mem_erase hkv) x hx⟩)
-        have g2 := unwatchAll_good (((w.objs[o]?).bind (fun ob => lookup ob.dyn md.name)).getD []) _ g1.closed hold
-        generalize hi : World.installDep (List.foldl (fun w wt => w.unwatch wt)
-          (w.setObj o fun ob => { ob with dyn := erase ob.dyn md.name })
-          (((w.objs[o]?).bind (fun ob => lookup ob.dyn md.name)).getD [])) o md = r
-        obtain ⟨w3, dynw⟩ := r
-        obtain ⟨g3, hd⟩ := installDep_good g2.closed ho hi
-        simp only
-        have g123 := (g1.trans g2).trans g3
-        split
-        · exact g123.trans (updateDeps_good ho rest _ g123.closed)
-        · have g4 := setDyn_good (m := md.name) g123.closed ho hd
-          exact (g123.trans g4).trans (updateDeps_good ho rest _ g4.closed)
-      · exact updateDeps_good ho rest w hc
+      · exact g123.trans (updateDeps_good ho rest _ g123.closed)
+      · have g4 := setDyn_good (m := md.name) g123.closed ho hd
+        exact (g123.trans g4).trans (updateDeps_good ho rest _ g4.closed)
     · exact updateDeps_good ho rest w hc
 
 theorem initDeps_good {S C : Nat → Prop} {o : Nat} (ho : S o) :
@@ -333,14 +389,15 @@ theorem initDeps_good {S C : Nat → Prop} {o : Nat} (ho : S o) :
   | [], w, hc => by simp only [World.initDeps]; exact Good.refl hc
   | md :: rest, w, hc => by
     simp only [World.initDeps]
-    generalize hi : w.installDep o md = r
+    have g0 := installConst_good (md := md) hc ho
+    generalize hi : (w.installConst o md).installDyn o md = r
     obtain ⟨w1, dynw⟩ := r
-    obtain ⟨g1, hd⟩ := installDep_good hc ho hi
+    obtain ⟨g1, hd⟩ := installDyn_good g0.closed ho hi
     simp only
     split
-    · exact g1.trans (initDeps_good ho rest _ g1.closed)
+    · exact (g0.trans g1).trans (initDeps_good ho rest _ g1.closed)
     · have g2 := setDyn_good (m := md.name) g1.closed ho hd
-      exact (g1.trans g2).trans (initDeps_good ho rest _ g2.closed)
+      exact ((g0.trans g1).trans g2).trans (initDeps_good ho rest _ g2.closed)
 
 /-- an argument that stays inside `S`/`C`: no new list unless the next heap address is in `C` -/
 def Arg.inSets (w : World) (S C : Nat → Prop) : Arg → Prop
@@ -368,14 +425,16 @@ theorem log_good {w : World} {S C : Nat → Prop} (hc : Closed w S C) (added : L
     (h : ∀ e ∈ added, S e.1) : Good w { w with log := w.log ++ added } S C :=
   ⟨hc, ⟨fun _ _ => rfl, fun _ _ => rfl, rfl, ⟨added, rfl, h⟩, Nat.le_refl _, Nat.le_refl _⟩⟩
 
-theorem callWatcher_owner {w : World} {wt : Watcher} {old new : Val} {e : Nat × String}
-    (h : callWatcher w wt old new = some e) : e.1 = wt.fn.owner := by
+theorem callWatcher_owner {w : World} {wt : Watcher} {p : String} {old new : Val} {e : Nat × String}
+    (h : callWatcher w wt p old new = some e) : e.1 = wt.fn.owner := by
   unfold callWatcher at h
   split at h
   · simp at h
   · split at h
     · split at h
-      · simp at h
+      · split at h
+        · simp at h
+        · simp at h; rw [← h]
       · simp at h; rw [← h]
     · simp at h; rw [← h]
 
@@ -532,22 +591,25 @@ theorem step_good {w w' : World} {S C : Nat → Prop} {op : Op} (hc : Closed w S
 
 /-! ## `__setstate__` and the graph copy -/
 
-theorem rebindWatcher_spec {pol : Policy} {cls : ClassDef} {self : Nat} {wt wt' : Watcher} {pid pid' : Nat}
+theorem rebindWatcher_spec {pol : Policy} {cls : Option ClassDef} {self : Nat} {wt wt' : Watcher} {pid pid' : Nat}
     (h : rebindWatcher pol cls self wt pid = .ok (wt', pid')) :
     wt'.inst = self ∧ (wt'.fn.owner = self ∨ wt'.fn = wt.fn) ∧ wt'.names = wt.names ∧ wt'.precedence = wt.precedence := by
   unfold rebindWatcher at h
   cases hk : wt.fn.kind <;> simp only [hk] at h
   · by_cases hr : pol.redo wt.fn.owner self = true
     · simp only [hr, if_true] at h
-      by_cases ha : cls.hasAttr wt.fn.method = true
-      · simp [ha] at h; obtain ⟨rfl, _⟩ := h; exact ⟨rfl, Or.inl rfl, rfl, rfl⟩
-      · simp [ha] at h
+      cases cls with
+      | none => simp at h
+      | some c =>
+        by_cases ha : c.hasAttr wt.fn.method = true
+        · simp [ha] at h; obtain ⟨rfl, _⟩ := h; exact ⟨rfl, Or.inl rfl, rfl, rfl⟩
+        · simp [ha] at h
     · simp [hr] at h; obtain ⟨rfl, _⟩ := h; exact ⟨rfl, Or.inr rfl, rfl, rfl⟩
   · by_cases ho : wt.fn.owner = wt.inst
     · simp [ho] at h; obtain ⟨rfl, _⟩ := h; exact ⟨rfl, Or.inl rfl, rfl, rfl⟩
     · simp [ho] at h; obtain ⟨rfl, _⟩ := h; exact ⟨rfl, Or.inr rfl, rfl, rfl⟩
 
-theorem rebindList_spec {pol : Policy} {cls : ClassDef} {self : Nat} :
+theorem rebindList_spec {pol : Policy} {cls : Option ClassDef} {self : Nat} :
     ∀ {l out : List Watcher} {pid pid' : Nat}, rebindList pol cls self l pid = .ok (out, pid') →
     ∀ wt' ∈ out, wt'.inst = self ∧ (wt'.fn.owner = self ∨ ∃ wt ∈ l, wt'.fn = wt.fn)
   | [], out, pid, pid', h => by simp [rebindList] at h; obtain ⟨rfl, _⟩ := h; simp
@@ -568,7 +630,7 @@ theorem rebindList_spec {pol : Policy} {cls : ClassDef} {self : Nat} :
         · obtain ⟨a, b⟩ := rebindList_spec h2 wt' hm
           exact ⟨a, b.imp id (fun ⟨x, hx, e⟩ => ⟨x, by simp [hx], e⟩)⟩
 
-theorem rebindTable_spec {pol : Policy} {cls : ClassDef} {self : Nat} :
+theorem rebindTable_spec {pol : Policy} {cls : Option ClassDef} {self : Nat} :
     ∀ {t out : List (String × List Watcher)} {pid pid' : Nat}, rebindTable pol cls self t pid = .ok (out, pid') →
     ∀ kv' ∈ out, ∀ wt' ∈ kv'.2, wt'.inst = self ∧ (wt'.fn.owner = self ∨ ∃ kv ∈ t, ∃ wt ∈ kv.2, wt'.fn = wt.fn)
   | [], out, pid, pid', h => by simp [rebindTable] at h; obtain ⟨rfl, _⟩ := h; simp
@@ -599,11 +661,9 @@ theorem setstate_spec {pol : Policy} {classes : List ClassDef} {self : Nat} {ob 
   unfold setstate at h
   split at h
   · simp at h
-  · split at h
-    · simp at h
-    · rename_i t pid1 h1
-      simp at h; obtain ⟨rfl, _⟩ := h
-      exact Or.inr ⟨t, rfl, rebindTable_spec h1⟩
+  · rename_i t pid1 h1
+    simp at h; obtain ⟨rfl, _⟩ := h
+    exact Or.inr ⟨t, rfl, rebindTable_spec h1⟩
 
 theorem setstateAll_spec {pol : Policy} {classes : List ClassDef} {R : List Nat} {no : Nat} :
     ∀ {l out : List Obj} {i pid pid' : Nat}, setstateAll pol classes R no l i pid = .ok (out, pid') →
@@ -765,6 +825,134 @@ theorem copyGraph_ok {pol : Policy} {w : World} {root : Nat} (hroot : root < w.o
         have := hres kv0 hkv0 wt0 hwt0 hk0 (by simpa [renWatcher, renCaller] using hredo)
         simpa [renWatcher, renCaller] using this)
   simp only [hs]; exact ⟨_, rfl⟩
+
+/-! ### the current `__setstate__` (`.unbound`) never fails -/
+
+theorem rebindWatcher_unbound (cls : Option ClassDef) (self : Nat) (wt : Watcher) (pid : Nat) :
+    ∃ r, rebindWatcher .unbound cls self wt pid = .ok r := by
+  unfold rebindWatcher
+  cases hk : wt.fn.kind <;> simp only [Policy.redo]
+  · exact ⟨_, rfl⟩
+  · split <;> exact ⟨_, rfl⟩
+
+theorem rebindList_unbound (cls : Option ClassDef) (self : Nat) : ∀ (l : List Watcher) (pid : Nat),
+    ∃ r, rebindList .unbound cls self l pid = .ok r
+  | [], pid => ⟨_, rfl⟩
+  | wt :: rest, pid => by
+    obtain ⟨⟨wt1, pid1⟩, h1⟩ := rebindWatcher_unbound cls self wt pid
+    obtain ⟨⟨r2, pid2⟩, h2⟩ := rebindList_unbound cls self rest pid1
+    simp only [rebindList, h1, h2]; exact ⟨_, rfl⟩
+
+theorem rebindTable_unbound (cls : Option ClassDef) (self : Nat) : ∀ (t : List (String × List Watcher)) (pid : Nat),
+    ∃ r, rebindTable .unbound cls self t pid = .ok r
+  | [], pid => ⟨_, rfl⟩
+  | (p, ws) :: rest, pid => by
+    obtain ⟨⟨ws1, pid1⟩, h1⟩ := rebindList_unbound cls self ws pid
+    obtain ⟨⟨r2, pid2⟩, h2⟩ := rebindTable_unbound cls self rest pid1
+    simp only [rebindTable, h1, h2]; exact ⟨_, rfl⟩
+
+theorem setstate_unbound (classes : List ClassDef) (self : Nat) (ob : Obj) (pid : Nat) :
+    ∃ r, setstate .unbound classes self ob pid = .ok r := by
+  obtain ⟨⟨t, pid1⟩, h1⟩ := rebindTable_unbound classes[ob.cls]? self ob.watchers pid
+  simp only [setstate, h1]; exact ⟨_, rfl⟩
+
+theorem setstateAll_unbound (classes : List ClassDef) (R : List Nat) (no : Nat) : ∀ (l : List Obj) (i pid : Nat),
+    ∃ r, setstateAll .unbound classes R no l i pid = .ok r
+  | [], i, pid => ⟨_, rfl⟩
+  | ob :: rest, i, pid => by
+    simp only [setstateAll]
+    by_cases hi : i ∈ R
+    · obtain ⟨⟨ob1, pid1⟩, h1⟩ := setstate_unbound classes (no + i) ob pid
+      obtain ⟨⟨r2, pid2⟩, h2⟩ := setstateAll_unbound classes R no rest (i + 1) pid1
+      simp only [hi, if_true, h1, h2]; exact ⟨_, rfl⟩
+    · obtain ⟨⟨r2, pid2⟩, h2⟩ := setstateAll_unbound classes R no rest (i + 1) pid
+      simp only [hi, if_false, h2]; exact ⟨_, rfl⟩
+
+/-- with the current `__setstate__` every existing object can be copied -/
+theorem copyGraph_unbound_ok (w : World) (root : Nat) (hroot : root < w.objs.length) :
+    ∃ r, copyGraph .unbound w root = .ok r := by
+  unfold copyGraph
+  have hr : ∃ ob, w.objs[root]? = some ob := ⟨w.objs[root], by simp [hroot]⟩
+  obtain ⟨ob, hob⟩ := hr
+  simp only [hob]
+  obtain ⟨⟨copies, pid⟩, hs⟩ := setstateAll_unbound w.classes (reach w root) w.objs.length
+    (w.objs.map (renObj w.objs.length w.cells.length w.nextPid)) 0 (w.nextPid + w.nextPid)
+  simp only [hs]; exact ⟨_, rfl⟩
+
+/-- every watcher in the table of object `i` names `i` as its instance -/
+def OwnWatchers (w : World) : Prop :=
+  ∀ (i : Nat) (ob : Obj), w.objs[i]? = some ob → ∀ kv ∈ ob.watchers, ∀ wt ∈ kv.2, wt.inst = i
+
+theorem ownWatchersB_sound {w : World} (h : ownWatchersB w = true) : OwnWatchers w := by
+  intro i ob hob kv hkv wt hwt
+  have hi : i < w.objs.length := by
+    rcases Nat.lt_or_ge i w.objs.length with h1 | h1
+    · exact h1
+    · rw [List.getElem?_eq_none h1] at hob; simp at hob
+  have := (List.all_eq_true.1 h) i (List.mem_range.2 hi)
+  simp only [hob, List.all_eq_true] at this
+  simpa using this kv hkv wt hwt
+
+theorem rebindWatcher_unbound_id (cls : Option ClassDef) {self : Nat} {wt : Watcher} (pid : Nat)
+    (h : wt.inst = self) : rebindWatcher .unbound cls self wt pid = .ok (wt, pid) := by
+  obtain ⟨inst, fn, names, prec⟩ := wt
+  obtain ⟨kind, owner, method, changed, fpid⟩ := fn
+  simp only at h; subst h
+  unfold rebindWatcher
+  cases kind <;> simp only [Policy.redo]
+  · rfl
+  · split
+    · rename_i ho; cases ho; rfl
+    · rfl
+
+theorem rebindList_unbound_id (cls : Option ClassDef) {self : Nat} : ∀ (l : List Watcher) (pid : Nat),
+    (∀ wt ∈ l, wt.inst = self) → rebindList .unbound cls self l pid = .ok (l, pid)
+  | [], pid, _ => rfl
+  | wt :: rest, pid, h => by
+    simp only [rebindList, rebindWatcher_unbound_id cls pid (h wt (by simp)),
+      rebindList_unbound_id cls rest pid (fun x hx => h x (by simp [hx]))]
+
+theorem rebindTable_unbound_id (cls : Option ClassDef) {self : Nat} : ∀ (t : List (String × List Watcher)) (pid : Nat),
+    (∀ kv ∈ t, ∀ wt ∈ kv.2, wt.inst = self) → rebindTable .unbound cls self t pid = .ok (t, pid)
+  | [], pid, _ => rfl
+  | (p, ws) :: rest, pid, h => by
+    simp only [rebindTable, rebindList_unbound_id cls ws pid (h (p, ws) (by simp)),
+      rebindTable_unbound_id cls rest pid (fun x hx => h x (by simp [hx]))]
+
+theorem setstateAll_unbound_id (classes : List ClassDef) (R : List Nat) (no : Nat) : ∀ (l : List Obj) (i pid : Nat),
+    (∀ (j : Nat) (ob : Obj), l[j]? = some ob → ∀ kv ∈ ob.watchers, ∀ wt ∈ kv.2, wt.inst = no + (i + j)) →
+    setstateAll .unbound classes R no l i pid = .ok (l, pid)
+  | [], i, pid, _ => rfl
+  | ob :: rest, i, pid, h => by
+    have hrest := setstateAll_unbound_id classes R no rest (i + 1) pid (fun j ob' hj kv hkv wt hwt => by
+      have e : i + 1 + j = i + (j + 1) := by omega
+      rw [e]; exact h (j + 1) ob' (by simpa using hj) kv hkv wt hwt)
+    have h0 := rebindTable_unbound_id classes[ob.cls]? (self := no + i) ob.watchers pid
+      (fun kv hkv wt hwt => by simpa using h 0 ob (by simp) kv hkv wt hwt)
+    simp only [setstateAll, setstate, h0, hrest]
+    split <;> rfl
+
+/-- **the copy in closed form** (current `__setstate__`): the world after `copy.deepcopy(root)` is the old
+world plus the image of every object and list under the renaming — `__setstate__` changes nothing, so
+also the watcher tables, the `changed=` filters and the identity of the callers recorded in
+`dynamic_watchers` are carried over exactly. -/
+theorem copyGraph_unbound_eq {w : World} {root : Nat} (hroot : root < w.objs.length) (hown : OwnWatchers w) :
+    copyGraph .unbound w root =
+      .ok ({ w with objs := w.objs ++ w.objs.map (renObj w.objs.length w.cells.length w.nextPid),
+                    cells := w.cells ++ w.cells, nextPid := w.nextPid + w.nextPid }, w.objs.length + root) := by
+  unfold copyGraph
+  have hr : ∃ ob, w.objs[root]? = some ob := ⟨w.objs[root], by simp [hroot]⟩
+  obtain ⟨ob, hob⟩ := hr
+  simp only [hob]
+  rw [setstateAll_unbound_id w.classes (reach w root) w.objs.length _ 0 (w.nextPid + w.nextPid) (by
+    intro j ob' hj kv hkv wt hwt
+    simp only [List.getElem?_map] at hj
+    cases hoj : w.objs[j]? with
+    | none => simp [hoj] at hj
+    | some ob0 =>
+      simp [hoj] at hj; subst hj
+      obtain ⟨kv0, hkv0, wt0, hwt0, rfl⟩ := renObj_watchers hkv hwt
+      simp [renWatcher, hown j ob0 hoj kv0 hkv0 wt0 hwt0])]
 
 /-! ### the two halves of the world after a copy -/
 
